@@ -71,7 +71,7 @@ add('C10', ['C10', 'C10b', 'C10c', 'C10X', 'C10XPost', 'C10XTree', 'C10XToc', 'C
 add('C11', ['C11', 'C11Census', 'C11X'], ['corr.instancex'],
     'Lean 4 frame theorem on an abstract instance state machine (reset re-establishes the fresh state for every non-raising history) + census theorems decided by the kernel over tables regenerated from the source AST: every conversion-time write to instance state is re-initialised by reset() or on a justified allow-list',
     'PARTIAL: the abstract model takes `convert` as a parameter; that the census categories are the right reading of the code is checked dynamically by the oracle (fresh vs reset instances, attribute census). F-C11-1 was repaired (fix: commit f86514b): reset() clears parser.state, the theorems hold for every history; the pre-repair reset is kept as a labelled counterexample.')
-add('C12', ['C12', 'C11Census'], [],
+add('C12', ['C12', 'C11Census', 'C12X'], ['corr.threadsx', 'corr.instancex'],
     'Lean 4 schedule-independence theorem for confined threads over read-only/memo shared cells (every interleaving = sequential run) + kernel-decided census over the regenerated table of run-time writes to module/class-level state (must be on the memo allow-list)',
     'PARTIAL: CPython/GIL atomicity, `re` cache, importlib locks, xml.etree internals are trusted; a theorem about this model cannot exhibit a data race inside the interpreter. Threaded runs are the search.')
 add('C13', ['C13'], ['corr.registry'],
